@@ -12,6 +12,7 @@ TITLE = "publications file: strict structure, exact signed range, trust only via
 
 def run(prog, chk):
     der_whole_value(prog, chk)
+    signer_certificate_table(prog, chk)
     _run(prog, chk)
 
 
@@ -70,6 +71,66 @@ def der_whole_value(prog, chk):
                % ("an object and KSI_OK" if want else "an error, no object" + (", the decoded PKCS#7 released once" if decoded else ""),
                   hex(q.ret) if isinstance(q.ret, int) else q.ret, handed, kept),
                loc=fn.loc(), fn=fn, nontrivial=(D is not None and D != L))
+
+
+def signer_certificate_table(prog, chk):
+    """The certificate whose chain and subject are judged is the certificate of the signer of the PKCS#7 object - not any certificate
+    that happens to travel in it.  KSI_PKISignature_extractCertificate is evaluated over (stack of signers OpenSSL reports: none / 0 / 1 / 2
+    entries) x (certificates embedded in the object: 1 or 2, the signer's not first): a certificate is handed out exactly for one signer,
+    and it is a copy of that signer's certificate."""
+    chk.rule("C18.signer", "the certificate judged is the PKCS#7 signer's certificate, exactly one signer (decision table over the signer stack)", floor=8)
+    fn = prog.fn("KSI_PKISignature_extractCertificate", "pkitruststore_openssl.c")
+    sp, cp = [q["n"] for q in fn.params]
+    for nsig, nbag, dup_ok in [(None, 1, 1), (0, 1, 1), (1, 1, 1), (1, 2, 1), (1, 3, 1), (2, 2, 1), (3, 3, 1), (1, 2, 0), (None, 2, 1), (0, 2, 1)]:
+        stacks = {"SIGNERS": ["signer%d" % k for k in range(nsig or 0)], "BAG": ["bag%d" % k for k in range(nbag)]}
+        freed = []
+
+        def ident(I, p, node, args):
+            return args[0]
+
+        def num(I, p, node, args):
+            return len(stacks[args[0].what]) if isinstance(args[0], Ptr) and args[0].what in stacks else (-1 if args[0] == 0 else TOP)
+
+        def value(I, p, node, args):
+            if isinstance(args[0], Ptr) and args[0].what in stacks and isinstance(args[1], int):
+                st = stacks[args[0].what]
+                return Ptr(st[args[1]]) if 0 <= args[1] < len(st) else 0
+            return TOP
+
+        def dup(I, p, node, args, dup_ok=dup_ok):
+            if not dup_ok:
+                return 0
+            return Ptr("copy of " + args[0].what) if isinstance(args[0], Ptr) else TOP
+        ov = {"PKCS7_get0_signers": lambda I, p, n, a, nsig=nsig: (Ptr("SIGNERS") if nsig is not None and a[0] == Ptr("P7") else 0),
+              "OPENSSL_sk_num": num, "sk_X509_num": num, "OPENSSL_sk_value": value, "sk_X509_value": value, "OPENSSL_sk_delete": value, "sk_X509_delete": value,
+              "OPENSSL_sk_shift": lambda I, p, n, a: value(I, p, n, [a[0], 0]), "OPENSSL_sk_pop": lambda I, p, n, a: value(I, p, n, [a[0], len(stacks.get(getattr(a[0], "what", ""), [])) - 1]),
+              "ossl_check_X509_sk_type": ident, "ossl_check_const_X509_sk_type": ident, "X509_dup": dup,
+              "OPENSSL_sk_free": lambda I, p, n, a: (freed.append(a[0]), TOP)[1], "sk_X509_free": lambda I, p, n, a: (freed.append(a[0]), TOP)[1],
+              "OPENSSL_sk_pop_free": lambda I, p, n, a: (freed.append(a[0]), TOP)[1],
+              "X509_free": lambda I, p, n, a: TOP, "KSI_PKICertificate_free": lambda I, p, n, a: TOP, "OBJ_obj2nid": lambda I, p, n, a: 22,
+              "KSI_malloc": lambda I, p, n, a: Ptr("NEW"), "KSI_calloc": lambda I, p, n, a: Ptr("NEW")}
+        inputs = {sp: Ptr("SIG"), cp: Ptr("OUT"), "SIG->pkcs7": Ptr("P7"), "SIG->ctx": Ptr("ctx"), "P7->d.sign": Ptr("SIGNED"), "SIGNED->cert": Ptr("BAG"),
+                  "P7->type": Ptr("OID"), "SIGNED->signer_info": Ptr("SI")}
+        I = Interp(fn, inputs=inputs, call_model=succeed_model(prog, ov), on_unknown="stop", prog=prog)
+        paths = I.run()
+        chk.paths += len(paths)
+        inst = "extractCertificate[signers reported: %s, certificates embedded: %d%s]" % ("none (NULL)" if nsig is None else nsig, nbag, "" if dup_ok else ", copy fails")
+        if len(paths) != 1 or paths[0].undetermined or paths[0].ret is TOP:
+            raise AnalysisBroken("KSI_PKISignature_extractCertificate: evaluation not determined for %s: %s" % (inst, [q.undetermined[:1] for q in paths]))
+        q = paths[0]
+        out = [x[2] for x in q.stores("*" + cp)] + [x[2] for x in q.stores("OUT")]
+        x509 = I.read(q, "NEW->x509")
+        want = nsig == 1 and dup_ok
+        if want:
+            ok = q.ret == 0 and out[-1:] == [Ptr("NEW")] and x509 == Ptr("copy of signer0")
+        else:
+            ok = q.ret != 0 and not any(v not in (0, None) for v in out)
+        # the signer stack is the caller's to release (get0_signers hands out a fresh stack of borrowed certificates)
+        if nsig is not None and Ptr("BAG") in freed:
+            ok = False
+        chk.ob("C18.signer", inst, ok, "expected %s; source: status %s, handed out %s holding %s, stacks released %s"
+               % ("KSI_OK and a copy of the signer's certificate" if want else "a refusal and no certificate", hex(q.ret) if isinstance(q.ret, int) else q.ret, out[-1:], x509, freed),
+               loc=fn.loc(), fn=fn)
 
 
 def _run(prog, chk):
